@@ -24,6 +24,13 @@ reader-keys follows a custom column selection hoisted out of the row loop (`[(k,
 fields-covered resolves a copy filter set computed once in the first pass (`if names is None: names = set(raw.__dict__)`)
 and refutes the live-view variant (`raw.__dict__.keys()` / `vars(raw)` kept across rows).
 
+Round 4 additions: read_csv / write_csv may delegate the file handling to one private helper (`_entry_body`: parameters are
+looked through to the entry function's arguments and defaults); tasks_to_raws / raws_to_wbs may build their objects through a
+per-item helper called in a loop, a list comprehension or map() (`_item_helper`); custom column discovery may be a two-generator
+dict comprehension; reader-keys refutes a **kwargs dict created once before the row loop when a cell is stored under a
+row-dependent condition (stale values of earlier rows; an unconditional store into a shared dict is accepted); id-opacity
+refutes a predecessor filter `p.id in S` whose S is still being filled by the loop that builds the raws.
+
 Not decided: the csv module's quoting (trusted stdlib, default dialect only), a hand-rolled date parser with its own year
 pivot (undecided), custom attribute
 names that collide with Task members, tasks whose parent_id is dangling, numeric behaviour of float()/str().
@@ -114,9 +121,37 @@ def _default_list(ctx, node, fx):
     return const_seq(node)
 
 
+_ENTRY = {}
+
+
+def _entry_body(ctx, name):
+    """read_csv / write_csv, or - when that function only delegates - the single private helper of the same module that holds
+    the open(...) call  ->  (function with the file handling, {helper parameter: argument expression in the entry function} or
+    None, the call in the entry function or None)"""
+    f = ctx.prog.func(CSV + '.' + name)
+    cache = _ENTRY.setdefault(id(ctx), {})
+    if name in cache:
+        return cache[name]
+    is_open = lambda c: isinstance(c, ast.Call) and isinstance(c.func, ast.Name) and c.func.id == 'open'
+    res = (f, None, None)
+    if not any(is_open(c) for c in walk_no_nested(f.node)):
+        cands = []
+        for c in walk_no_nested(f.node):
+            hf = package_helper(ctx, f, c) if isinstance(c, ast.Call) else None
+            if hf is not None and hf.module is f.module and hf is not f and any(is_open(x) for x in walk_no_nested(hf.node)):
+                cands.append((hf, bind_call(c, hf), c))
+        fx = fx_of(ctx, f)
+        if len(cands) == 1 and cands[0][1] is not None and not fx.enclosing_fors(cands[0][2]) \
+                and not fx.cfg.conditions(fx.cfg.node_containing(cands[0][2])):
+            hf, b, c = cands[0]
+            res = (hf, {p_: fx.x(a) for p_, a in b.items()}, c)
+    cache[name] = res
+    return res
+
+
 def find_writer(ctx, o):
     """-> (func, fx, header_call, row_call, row_for) of write_csv or None after recording undecided"""
-    f = ctx.prog.func(CSV + '.write_csv')
+    f = _entry_body(ctx, 'write_csv')[0]
     fx = fx_of(ctx, f)
     wr = [c for c in walk_no_nested(f.node) if isinstance(c, ast.Call) and isinstance(c.func, ast.Attribute)
           and c.func.attr in ('writerow', 'writerows')]
@@ -135,7 +170,7 @@ def find_writer(ctx, o):
 
 def find_reader(ctx, o):
     """-> dict(func, fx, reader_call, loop, rowvar, hdr_name, hdr_value, ctor) of read_csv or None"""
-    f = ctx.prog.func(CSV + '.read_csv')
+    f = _entry_body(ctx, 'read_csv')[0]
     fx = fx_of(ctx, f)
     is_ctor = lambda c: isinstance(c, ast.Call) and isinstance(c.func, ast.Name) and c.func.id == 'TaskRaw'
     ctors = [c for c in walk_no_nested(f.node) if is_ctor(c)]
@@ -299,8 +334,8 @@ def _compare_columns(o, f, node, val, what) -> bool:
 
 
 def _keys_of_dict(e):
-    """expression denoting the keys of dict D in insertion order -> D (Name) else None"""
-    if isinstance(e, ast.Name):
+    """expression denoting the keys of dict D in insertion order -> D (Name, or the dict comprehension that builds it) else None"""
+    if isinstance(e, (ast.Name, ast.DictComp)):
         return e
     if isinstance(e, ast.Call) and isinstance(e.func, ast.Attribute) and e.func.attr == 'keys' and not e.args:
         return _keys_of_dict(e.func.value)
@@ -376,38 +411,49 @@ def _custom_columns(ctx, o, F, f, fx, hcall, rcall, hcustom, rcustom, rfor, rowv
         o.site(f, rcall, "custom cell = attribute of the row task by column name, '' when absent")
     # ---- discovery of the custom columns
     d = rd if rd is not None else None
-    if d is None or not isinstance(d, ast.Name):
+    if isinstance(d, ast.DictComp) and len(d.generators) == 2 and isinstance(d.key, ast.Name) and not any(g.is_async for g in d.generators):
+        # {k: .. for t in RAWS for k[, v] in t.__dict__[.items()] if ..}: the discovery loop as one comprehension (already expanded)
+        from sa.facts import split_conj
+        g1, g2 = d.generators
+        k, stn = d.key.id, hcall
+        outer_t, outer_it, inner_t, inner_it, inner_node = g1.target, g1.iter, g2.target, g2.iter, d
+        conds = []
+        for c in g1.ifs + g2.ifs:
+            conds += split_conj(c, True)
+    elif d is None or not isinstance(d, ast.Name):
         o.undecided(f, hcall, hcustom, "custom column list is not the key list of a dict filled by a discovery loop")
         return
-    stores = []
-    for n in walk_no_nested(f.node):
-        if isinstance(n, ast.Assign) and len(n.targets) == 1 and isinstance(n.targets[0], ast.Subscript) \
-                and isinstance(n.targets[0].value, ast.Name) and n.targets[0].value.id == d.id:
-            stores.append(n)
-        elif isinstance(n, ast.Call) and isinstance(n.func, ast.Attribute) and n.func.attr in ('append', 'setdefault', 'add') \
-                and isinstance(n.func.value, ast.Name) and n.func.value.id == d.id:
-            stores.append(n)
-    if len(stores) != 1 or not isinstance(stores[0], ast.Assign) or not isinstance(stores[0].targets[0].slice, ast.Name):
-        o.undecided(f, hcall, d, f"custom column accumulator `{d.id}` is not filled by exactly one `{d.id}[k] = ..` store")
+    else:
+        stores = []
+        for n in walk_no_nested(f.node):
+            if isinstance(n, ast.Assign) and len(n.targets) == 1 and isinstance(n.targets[0], ast.Subscript) \
+                    and isinstance(n.targets[0].value, ast.Name) and n.targets[0].value.id == d.id:
+                stores.append(n)
+            elif isinstance(n, ast.Call) and isinstance(n.func, ast.Attribute) and n.func.attr in ('append', 'setdefault', 'add') \
+                    and isinstance(n.func.value, ast.Name) and n.func.value.id == d.id:
+                stores.append(n)
+        if len(stores) != 1 or not isinstance(stores[0], ast.Assign) or not isinstance(stores[0].targets[0].slice, ast.Name):
+            o.undecided(f, hcall, d, f"custom column accumulator `{d.id}` is not filled by exactly one `{d.id}[k] = ..` store")
+            return
+        stn = stores[0]
+        k = stn.targets[0].slice.id
+        fors = fx.enclosing_fors(stn)
+        if len(fors) != 2:
+            o.undecided(f, stn, stn, "custom column discovery is not a two level loop (tasks, attribute names)")
+            return
+        outer, inner = fors
+        outer_t, outer_it, inner_t, inner_it, inner_node = outer.target, fx.x(outer.iter), inner.target, fx.x(inner.iter), inner
+        conds = [c for c in fx.conds(stn)]
+    if not same(outer_it, fx.x(rfor.iter)):
+        o.refute(f, stn, f"discovery over {src(outer_it)[:60]}", f"custom columns are discovered over `{src(outer_it)[:60]}` but rows are written "
+                                                                f"for `{src(fx.x(rfor.iter))[:60]}`: attributes of some tasks get no column")
         return
-    stn = stores[0]
-    k = stn.targets[0].slice.id
-    fors = fx.enclosing_fors(stn)
-    if len(fors) != 2:
-        o.undecided(f, stn, stn, "custom column discovery is not a two level loop (tasks, attribute names)")
-        return
-    outer, inner = fors
-    if not same(fx.x(outer.iter), fx.x(rfor.iter)):
-        o.refute(f, stn, f"discovery over {src(outer.iter)[:60]}", f"custom columns are discovered over `{src(fx.x(outer.iter))[:60]}` but rows are written "
-                                                                   f"for `{src(fx.x(rfor.iter))[:60]}`: attributes of some tasks get no column")
-        return
-    owner = keys_owner(fx.x(inner.iter))
-    tnames = [inner.target.id] if isinstance(inner.target, ast.Name) else [e.id for e in getattr(inner.target, 'elts', []) if isinstance(e, ast.Name)]
-    if owner is None or not (isinstance(owner, ast.Name) and isinstance(outer.target, ast.Name) and owner.id == outer.target.id) \
+    owner = keys_owner(inner_it)
+    tnames = [inner_t.id] if isinstance(inner_t, ast.Name) else [e.id for e in getattr(inner_t, 'elts', []) if isinstance(e, ast.Name)]
+    if owner is None or not (isinstance(owner, ast.Name) and isinstance(outer_t, ast.Name) and owner.id == outer_t.id) \
             or not tnames or tnames[0] != k:
-        o.undecided(f, stn, inner, "custom column discovery does not iterate `<task>.__dict__` of the outer loop's task by key")
+        o.undecided(f, stn, inner_node, "custom column discovery does not iterate `<task>.__dict__` of the outer loop's task by key")
         return
-    conds = [c for c in fx.conds(stn)]
     F.discover_conds = (conds, k, owner)
     env = KeyEnv(ctx, f)
     bad = False
@@ -482,6 +528,7 @@ def ob_reader_keys(ctx, o, F):
             o.refute(f, ctor, f"{k}=..['{key.value}']", f"TaskRaw keyword `{k}` is read from column `{key.value}`; expected column `{k}`")
     F.reader_cells = cells
     F.reader_kw = set(kw)
+    F.reader_func = f
     missing = [c for c in COLUMNS if c not in kw]
     extra = [k for k in kw if k not in COLUMNS]
     for c in missing:
@@ -650,6 +697,7 @@ def _kwargs_fill(ctx, o, F, r, star, consumed):
     key = val = target = it = None
     conds = None
     at = None
+    shared = None       # name of a **kwargs dict that is created once, before the row loop
     if isinstance(sx, ast.DictComp) and len(sx.generators) == 1:
         g = sx.generators[0]
         key, val, target, it = sx.key, sx.value, g.target, g.iter
@@ -673,7 +721,14 @@ def _kwargs_fill(ctx, o, F, r, star, consumed):
                 at = st
                 # the accumulator must be reset for every row
                 dv = fx.def_value(sx.id, ctor)
-                if dv is None or not is_empty_container(dv) or (not r['helper'] and r['loop'] not in fx.enclosing_fors(dv)):
+                if dv is not None and is_empty_container(dv) and not r['helper'] and r['loop'] not in fx.enclosing_fors(dv) \
+                        and len(fx.flow.defs_of(sx.id)) == 1 and r['loop'] in fx.enclosing_fors(st) \
+                        and not any(isinstance(n, ast.Call) and isinstance(n.func, ast.Attribute) and isinstance(n.func.value, ast.Name)
+                                    and n.func.value.id == sx.id for n in walk_no_nested(f.node)):
+                    # one dict created before the row loop and only ever written by `D[k] = ..`: TaskRaw(**D) copies its content per
+                    # row, so this is the same as a fresh dict iff every key is stored again for every row (decided below)
+                    shared = sx.id
+                elif dv is None or not is_empty_container(dv) or (not r['helper'] and r['loop'] not in fx.enclosing_fors(dv)):
                     o.undecided(f, st, sx, f"`{sx.id}` is not re-initialised to an empty dict for every row")
                     return
     if key is None:
@@ -686,6 +741,14 @@ def _kwargs_fill(ctx, o, F, r, star, consumed):
     #   custom = [(k, v) for k, v in header.items() if k not in DEFAULTS];  for k, v in custom: kwargs[k] = row[v]
     it, extra = _peel_filter(it, tn)
     conds = list(conds) + extra
+    if shared is not None:
+        rowdep = [(t, pol) for t, pol in conds if any(isinstance(n, ast.Name) and n.id == rowvar for n in ast.walk(t))]
+        if rowdep:
+            o.refute(f, at, f"{shared} shared by all rows, stored when {cond_text(rowdep)[:60]}",
+                     f"`{shared}` is created once before the row loop and a custom cell is stored into it only when `{cond_text(rowdep)[:60]}`: for a row "
+                     f"where that is false the entry of an earlier row stays in the dict and is passed to TaskRaw(**{shared}) again - a task without the "
+                     f"attribute inherits the value of a preceding task (expected a fresh dict per row, or an unconditional store)")
+            return
     hm = None
     if isinstance(it, ast.Call) and isinstance(it.func, ast.Attribute) and it.func.attr == 'items' and len(tn) == 2:
         hm, kname = it.func.value, tn[0]
@@ -1229,7 +1292,7 @@ def _param_default(func, name):
     return d.get(name)
 
 
-def _arg_value(fx, func, call, pos, name):
+def _arg_value(fx, func, call, pos, name, entry=None, bind=None):
     """(kind, value): ('absent', None) | ('const', python value) | ('param', (param name, default const or NotImplemented)) | ('other', node)"""
     node = None
     if pos is not None and len(call.args) > pos and not any(isinstance(a, ast.Starred) for a in call.args[:pos + 1]):
@@ -1242,13 +1305,19 @@ def _arg_value(fx, func, call, pos, name):
     x = fx.x(node) if fx.flow.node_of_expr(node) is not None else node
     if isinstance(x, ast.Constant):
         return 'const', x.value
+    if isinstance(x, ast.Name) and x.id in func.params and bind is not None and x.id in bind:
+        # func is the private helper the entry function delegates to: look through to the entry function's argument
+        x = bind[x.id]
+        if isinstance(x, ast.Constant):
+            return 'const', x.value
+        func = entry
     if isinstance(x, ast.Name) and x.id in func.params:
         d = _param_default(func, x.id)
         return 'param', (x.id, d.value if isinstance(d, ast.Constant) else NotImplemented)
     return 'other', x
 
 
-def _io_side(ctx, o, func, what):
+def _io_side(ctx, o, func, what, entry=None, bind=None):
     """-> dict(open=call, file var, csv=call, mode, encoding, newline, delimiter, extra) or None"""
     fx = fx_of(ctx, func)
     opens = [c for c in walk_no_nested(func.node) if isinstance(c, ast.Call) and isinstance(c.func, ast.Name) and c.func.id == 'open']
@@ -1287,10 +1356,10 @@ def _io_side(ctx, o, func, what):
             return None
     o.site(func, cs, f"csv.{what} on the opened file `{fvar}`")
     d = dict(open=op, csv=cs, func=func)
-    d['mode'] = _arg_value(fx, func, op, 1, 'mode')
-    d['encoding'] = _arg_value(fx, func, op, 3, 'encoding')
-    d['newline'] = _arg_value(fx, func, op, 5, 'newline')
-    d['delimiter'] = _arg_value(fx, func, cs, None, 'delimiter')
+    d['mode'] = _arg_value(fx, func, op, 1, 'mode', entry, bind)
+    d['encoding'] = _arg_value(fx, func, op, 3, 'encoding', entry, bind)
+    d['newline'] = _arg_value(fx, func, op, 5, 'newline', entry, bind)
+    d['delimiter'] = _arg_value(fx, func, cs, None, 'delimiter', entry, bind)
     d['extra'] = {k.arg: k.value for k in cs.keywords if k.arg not in ('delimiter',)}
     if len(cs.args) > 1:
         d['extra']['<dialect>'] = cs.args[1]
@@ -1353,9 +1422,10 @@ def _eff(v):
 
 def ob_io_modes(ctx, o, F):
     prog = ctx.prog
-    rf, wf = prog.func(CSV + '.read_csv'), prog.func(CSV + '.write_csv')
-    r = _io_side(ctx, o, rf, 'reader')
-    w = _io_side(ctx, o, wf, 'writer')
+    rf, rbind, _ = _entry_body(ctx, 'read_csv')
+    wf, wbind, _ = _entry_body(ctx, 'write_csv')
+    r = _io_side(ctx, o, rf, 'reader', prog.func(CSV + '.read_csv'), rbind)
+    w = _io_side(ctx, o, wf, 'writer', prog.func(CSV + '.write_csv'), wbind)
     if r is None or w is None:
         return
     # ---- mode
@@ -1465,10 +1535,57 @@ def ob_io_modes(ctx, o, F):
 
 
 # ======================================================================================================== C13.fields-covered
+def _item_helper(ctx, fn, clsname):
+    """fn builds its objects through a per-item private helper of the same module: `[helper(x) for x in ITEMS]` or
+    `for x in ITEMS: .. helper(x) ..`, the helper holding the single <clsname>(...) call outside any loop
+    -> (ctor call, name of the helper parameter bound to the item, helper) or None"""
+    fx = fx_of(ctx, fn)
+    found = []
+    comps = [n for n in ast.walk(fn.node) if isinstance(n, (ast.ListComp, ast.GeneratorExp)) and len(n.generators) == 1
+             and isinstance(n.generators[0].target, ast.Name) and not n.generators[0].ifs]
+    for c in walk_no_nested(fn.node):
+        hf = package_helper(ctx, fn, c) if isinstance(c, ast.Call) else None
+        if hf is None or hf.module is not fn.module or hf is fn:
+            continue
+        inner = [x for x in walk_no_nested(hf.node) if isinstance(x, ast.Call) and isinstance(x.func, ast.Name) and x.func.id == clsname]
+        if len(inner) != 1 or fx_of(ctx, hf).enclosing_fors(inner[0]):
+            continue
+        b = bind_call(c, hf)
+        if b is None:
+            return None
+        item = None
+        comp = [n for n in comps if n.elt is c]
+        fors = fx.enclosing_fors(c)
+        if comp:
+            item = comp[0].generators[0].target.id
+        elif len(fors) == 1 and isinstance(fors[0].target, ast.Name):
+            item = fors[0].target.id
+        ps = [p_ for p_, a in b.items() if isinstance(a, ast.Name) and a.id == item]
+        if item is None or len(ps) != 1:
+            return None
+        found.append((inner[0], ps[0], hf))
+    # map(helper, ITEMS)
+    for c in walk_no_nested(fn.node):
+        if isinstance(c, ast.Call) and isinstance(c.func, ast.Name) and c.func.id == 'map' and len(c.args) == 2 and not c.keywords \
+                and isinstance(c.args[0], ast.Name):
+            tg = [t for t in ctx.typer.resolve_name_call(c.args[0].id, fn) if t.kind == 'function']
+            if len(tg) != 1 or tg[0].module is not fn.module or tg[0] is fn or len(tg[0].params) != 1:
+                continue
+            inner = [x for x in walk_no_nested(tg[0].node) if isinstance(x, ast.Call) and isinstance(x.func, ast.Name) and x.func.id == clsname]
+            if len(inner) == 1 and not fx_of(ctx, tg[0]).enclosing_fors(inner[0]):
+                found.append((inner[0], tg[0].params[0], tg[0]))
+    return found[0] if len(found) == 1 else None
+
+
 def _raw_ctor(ctx, o, fn, clsname):
-    """the single <clsname>(...) call of fn inside a one-variable for loop -> (call, loop) or None"""
+    """the single <clsname>(...) call of fn inside a one-variable for loop (or inside the per-item helper fn maps over its
+    items) -> (call, item variable name, function that holds the call) or None"""
     fx = fx_of(ctx, fn)
     cs = [c for c in walk_no_nested(fn.node) if isinstance(c, ast.Call) and isinstance(c.func, ast.Name) and c.func.id == clsname]
+    if not cs:
+        h = _item_helper(ctx, fn, clsname)
+        if h is not None:
+            return h
     if len(cs) != 1:
         o.undecided(fn, fn.node, f"{fn.name} {clsname}(...)", f"expected one {clsname}(...) call in {fn.name}, found {len(cs)}")
         return None
@@ -1476,7 +1593,7 @@ def _raw_ctor(ctx, o, fn, clsname):
     if len(fors) != 1 or not isinstance(fors[0].target, ast.Name):
         o.undecided(fn, cs[0], f"{fn.name} loop", f"{clsname}(...) is not built inside one `for x in ..` loop")
         return None
-    return cs[0], fors[0]
+    return cs[0], fors[0].target.id, fn
 
 
 def _single_copy(ctx, o, fn, dst_name):
@@ -1519,9 +1636,9 @@ def ob_fields(ctx, o, F):
     d = _raw_ctor(ctx, o, r2w, 'Task')
     if a is None or d is None:
         return
-    (actor, aloop), (dctor, dloop) = a, d
-    fxa, fxd = fx_of(ctx, t2r), fx_of(ctx, r2w)
-    tvar, rvar = aloop.target.id, dloop.target.id
+    (actor, tvar, t2r_b), (dctor, rvar, r2w_b) = a, d        # *_b: the function that holds the constructor call (a per-item helper)
+    F.t2r_b, F.r2w_b = t2r_b, r2w_b
+    fxa, fxd = fx_of(ctx, t2r_b), fx_of(ctx, r2w_b)
     akw, astar = call_kwargs(actor, raw_sn.params())
     dkw, dstar = call_kwargs(dctor, task_sn.params())
     akw = {k: fxa.x(v, keep=[tvar]) for k, v in akw.items()}
@@ -1533,9 +1650,9 @@ def ob_fields(ctx, o, F):
                 return n.targets[0].id
         return None
     rawname, taskname = built_name(fxa, actor), built_name(fxd, dctor)
-    acopies = [g for g in generic_copies(ctx, t2r) if isinstance(g.dst, ast.Name) and g.dst.id == rawname
+    acopies = [g for g in generic_copies(ctx, t2r_b) if isinstance(g.dst, ast.Name) and g.dst.id == rawname
                and isinstance(g.src, ast.Name) and g.src.id == tvar]
-    dcopies = [g for g in generic_copies(ctx, r2w) if isinstance(g.dst, ast.Name) and g.dst.id == taskname
+    dcopies = [g for g in generic_copies(ctx, r2w_b) if isinstance(g.dst, ast.Name) and g.dst.id == taskname
                and isinstance(g.src, ast.Name) and g.src.id == rvar]
     if len(acopies) > 1 or len(dcopies) > 1:
         o.undecided(t2r if len(acopies) > 1 else r2w, None, 'several generic copies', "more than one generic attribute copy loop")
@@ -1555,7 +1672,7 @@ def ob_fields(ctx, o, F):
         o.undecided(t2r if astar is not None else r2w, None, '** in constructor call', "constructor called with ** arguments")
         return
     raw_static = set(raw_sn.inst)
-    csv_src_consts = {n.value for fn in (rd, wr) for n in ast.walk(fn.node) if isinstance(n, ast.Constant) and isinstance(n.value, str)}
+    csv_src_consts = {n.value for fn in {rd, wr, _entry_body(ctx, 'read_csv')[0], _entry_body(ctx, 'write_csv')[0]} for n in ast.walk(fn.node) if isinstance(n, ast.Constant) and isinstance(n.value, str)}
 
     for field in DATA_FIELDS + [CUSTOM]:
         label = '<custom attribute>' if field == CUSTOM else field
@@ -1574,13 +1691,13 @@ def ob_fields(ctx, o, F):
             route_a = 'kw'
         else:
             in_task_dict = field == CUSTOM or field in task_sn.inst
-            if acopy is None and _copy_hint(t2r):
+            if acopy is None and _copy_hint(t2r_b):
                 o.undecided(t2r, actor, f"{label}: attribute copy idiom", "tasks_to_raws moves attributes in an idiom the rule does not recognise")
                 continue
             if acopy is None:
                 o.refute(t2r, actor, f"{label}: not passed to TaskRaw(...) and no generic attribute copy", f"`{label}` never reaches the TaskRaw")
                 continue
-            env = KeyEnv(ctx, t2r)
+            env = KeyEnv(ctx, t2r_b)
             res, unk = eval_filter(acopy.conds, acopy.keyvar, field, env)
             if res is None:
                 o.undecided(t2r, acopy.call, unk[0], f"filter of the generic Task -> TaskRaw copy not understood (deciding `{label}`)")
@@ -1603,7 +1720,7 @@ def ob_fields(ctx, o, F):
                 o.undecided(wr, None, f"{label}: custom columns", "custom column discovery / emission not established (see C13.columns)")
                 continue
             conds, k, owner = F.discover_conds
-            res, unk = eval_filter(conds, k, field, KeyEnv(ctx, wr))
+            res, unk = eval_filter(conds, k, field, KeyEnv(ctx, _entry_body(ctx, 'write_csv')[0]))
             if not res:
                 o.refute(wr, None, f"{label}: no column", f"`{label}` is an attribute of the raw task but gets no column in write_csv")
                 continue
@@ -1624,7 +1741,7 @@ def ob_fields(ctx, o, F):
             if not F.kwargs_ok:
                 o.undecided(rd, None, f"{label}: **kwargs", "custom attribute transport on read not established (see C13.reader-keys)")
                 continue
-            res, unk = eval_filter(F.kwargs_filter[0], F.kwargs_filter[1], field, KeyEnv(ctx, rd))
+            res, unk = eval_filter(F.kwargs_filter[0], F.kwargs_filter[1], field, KeyEnv(ctx, getattr(F, 'reader_func', rd)))
             if not res:
                 o.refute(rd, None, f"{label}: header not admitted to **kwargs", f"column `{label}` is written but dropped on read")
                 continue
@@ -1639,14 +1756,14 @@ def ob_fields(ctx, o, F):
                 o.refute(task_sn.init, None, f"Task.__init__ {field}", f"Task.__init__ does not store parameter `{field}`")
                 continue
         else:
-            if dcopy is None and _copy_hint(r2w):
+            if dcopy is None and _copy_hint(r2w_b):
                 o.undecided(r2w, dctor, f"{label}: attribute copy idiom", "raws_to_wbs moves attributes in an idiom the rule does not recognise")
                 continue
             if dcopy is None:
                 o.refute(r2w, dctor, f"{label}: not passed to Task(...) and no generic attribute copy", f"`{label}` never reaches the rebuilt Task")
                 continue
             extra = {rvar: {field}}
-            env = KeyEnv(ctx, r2w, extra)
+            env = KeyEnv(ctx, r2w_b, extra)
             res, unk = eval_filter(dcopy.conds, dcopy.keyvar, field, env)
             if res is None:
                 o.undecided(r2w, dcopy.call, unk[0], f"filter of the generic TaskRaw -> Task copy not understood (deciding `{label}`)")
@@ -1679,13 +1796,13 @@ def ob_no_leak(ctx, o, F):
         return
     dcopy, acopy = F.dcopy, F.acopy
     # raw -> task: structural keys must not pass; `id` must not pass either (Task.id has no setter)
-    if dcopy is None and _copy_hint(r2w):
+    if dcopy is None and _copy_hint(F.r2w_b):
         o.undecided(r2w, None, 'attribute copy idiom', "raws_to_wbs moves attributes in an idiom the rule does not recognise")
     elif dcopy is None:
         for key in STRUCTURAL + ['id']:
             o.site(r2w, None, f"no generic TaskRaw -> Task copy: `{key}` cannot leak")
     else:
-        env = KeyEnv(ctx, r2w)
+        env = KeyEnv(ctx, F.r2w_b)
         for key in STRUCTURAL + [p for p in task_sn.props if p in raw_sn.inst and prog.find_setter('Task', p) is None]:
             res, unk = eval_filter(dcopy.conds, dcopy.keyvar, key, env)
             if res is None:
@@ -1700,12 +1817,12 @@ def ob_no_leak(ctx, o, F):
             else:
                 o.site(r2w, dcopy.call, f"`{key}` excluded from the raw -> Task copy")
     # task -> raw: private fields must not pass
-    if acopy is None and _copy_hint(t2r):
+    if acopy is None and _copy_hint(F.t2r_b):
         o.undecided(t2r, None, 'attribute copy idiom', "tasks_to_raws moves attributes in an idiom the rule does not recognise")
     elif acopy is None:
         o.site(t2r, None, "no generic Task -> TaskRaw copy: nothing can leak")
     else:
-        env = KeyEnv(ctx, t2r)
+        env = KeyEnv(ctx, F.t2r_b)
         leaked, unknown = [], None
         for key in task_sn.inst:
             if not key.startswith('_'):
@@ -1734,6 +1851,38 @@ def _id_funcs(prog):
         if fn.kind == 'function' and fn.module.name in (CSV, RAW) and fn not in out and not q.startswith(CSV + '.__parse'):
             out.append(fn)      # private helpers extracted from the four entry points
     return out
+
+
+def _incremental_member_filter(fx, ifs, at):
+    """a filter `<id> in NAME` (positive) where NAME is a container that starts empty and is filled (add/append/update/
+    subscript store) inside a loop that also encloses `at`: membership is tested against a set that is still growing
+    -> (NAME, fill node, filter) or None"""
+    from sa.facts import split_conj
+    loops = fx.enclosing_fors(at)
+    if not loops:
+        return None
+    for c in ifs:
+        for t, pol in split_conj(c, True):
+            if not (pol and isinstance(t, ast.Compare) and len(t.ops) == 1 and isinstance(t.ops[0], ast.In)
+                    and isinstance(t.comparators[0], ast.Name) and t.comparators[0].id in fx.acc):
+                continue
+            name = t.comparators[0].id
+            fills = []
+            for n in walk_no_nested(fx.f.node):
+                if isinstance(n, ast.Call) and isinstance(n.func, ast.Attribute) and n.func.attr in ('add', 'append', 'update', 'extend', 'setdefault') \
+                        and isinstance(n.func.value, ast.Name) and n.func.value.id == name:
+                    fills.append(n)
+                elif isinstance(n, ast.Assign) and any(isinstance(x, ast.Subscript) and isinstance(x.value, ast.Name) and x.value.id == name
+                                                       for x in n.targets):
+                    fills.append(n)
+            defs = fx.flow.defs_of(name)
+            if len(defs) != 1 or not fills:
+                continue
+            # every fill happens inside a loop around `at`, and the (only, empty) initialisation lies outside that loop
+            if all(any(l in fx.enclosing_fors(n) for l in loops) for n in fills) \
+                    and not any(l in fx.enclosing_fors(defs[0].stmt) for l in loops if defs[0].stmt is not None):
+                return name, fills[0], c
+    return None
 
 
 def ob_id_opacity(ctx, o, F):
@@ -1804,9 +1953,8 @@ def ob_id_opacity(ctx, o, F):
     a = _raw_ctor(ctx, o, t2r, 'TaskRaw')
     if a is None:
         return
-    actor, aloop = a
-    fx = fx_of(ctx, t2r)
-    tvar = aloop.target.id
+    actor, tvar, t2r_b = a
+    fx = fx_of(ctx, t2r_b)
     kw, _ = call_kwargs(actor, StaticNames(prog, 'TaskRaw').params())
     par = ast.Attribute(value=ast.Name(id=tvar, ctx=ast.Load()), attr='parent', ctx=ast.Load())
     if 'parent_id' not in kw:
@@ -1815,7 +1963,7 @@ def ob_id_opacity(ctx, o, F):
         e = fx.x(kw['parent_id'], keep=[tvar])
         good = True
         have_value = False
-        for conds, leaf in split_cases(ctx, t2r, e):
+        for conds, leaf in split_cases(ctx, t2r_b, e):
             facts, unk = sym_facts(conds, par)
             if isinstance(leaf, ast.Constant) and leaf.value is None:
                 if not (facts & {'none', 'falsy'}):
@@ -1855,7 +2003,14 @@ def ob_id_opacity(ctx, o, F):
                 else:
                     o.refute(t2r, actor, f"predecessor_ids over {src(g.iter)[:50]}", f"predecessor ids are taken from `{src(g.iter)[:50]}`; expected {tvar}.predecessors")
             elif g.ifs:
-                if not any(isinstance(n, ast.Attribute) and n.attr in ID_ATTRS for c in g.ifs for n in ast.walk(c)):
+                inc = _incremental_member_filter(fx, g.ifs, actor)
+                if inc is not None:
+                    name, fill, flt = inc
+                    o.refute(t2r, actor, f"predecessor_ids filter {src(flt)[:50]}",
+                             f"predecessors are kept only if `{src(flt)[:50]}`, but `{name}` is filled by `{src(fill)[:40]}` inside the same loop that "
+                             f"builds the raws: while task i is flattened it holds only the ids of tasks 0..i, so a predecessor that comes later in "
+                             f"WBS order is dropped (expected the complete id set, built before the loop)")
+                elif not any(isinstance(n, ast.Attribute) and n.attr in ID_ATTRS for c in g.ifs for n in ast.walk(c)):
                     o.refute(t2r, actor, f"predecessor_ids filter {src(g.ifs[0])[:50]}", f"predecessors are filtered by `{src(g.ifs[0])[:50]}` when flattening: some dependencies are lost")
             elif not (isinstance(e.elt, ast.Attribute) and e.elt.attr == 'id' and isinstance(e.elt.value, ast.Name) and e.elt.value.id == v):
                 o.refute(t2r, actor, f"predecessor_ids elt {src(e.elt)[:50]}", f"predecessor list records `{src(e.elt)[:50]}` instead of the predecessor's id")
@@ -1923,8 +2078,11 @@ def ob_order(ctx, o, F):
     wr, rd = prog.func(CSV + '.write_csv'), prog.func(CSV + '.read_csv')
     t2r, r2w = prog.func(RAW + '.tasks_to_raws'), prog.func(RAW + '.raws_to_wbs')
     if F.row_loop is not None:
-        fx = fx_of(ctx, wr)
+        wbody, wbind, _ = _entry_body(ctx, 'write_csv')
+        fx = fx_of(ctx, wbody)
         it = fx.x(F.row_loop.iter)
+        if wbind is not None:
+            it = subst(it, wbind)       # the rows are written by a private helper: its parameters as passed by write_csv
         wbsp = wr.params[0] if wr.params else None
         if isinstance(it, ast.Call) and isinstance(it.func, ast.Name) and it.func.id == 'tasks_to_raws' and len(it.args) == 1 \
                 and attr_path(it.args[0]) == f"{wbsp}.tasks":
@@ -1937,8 +2095,18 @@ def ob_order(ctx, o, F):
     for fn, param_i in ((t2r, 0), (r2w, 0)):
         fx = fx_of(ctx, fn)
         p = fn.params[param_i]
-        loops = [n for n in walk_no_nested(fn.node) if isinstance(n, ast.For) and isinstance(fx.x(n.iter), ast.Name) and fx.x(n.iter).id == p
-                 and not fx.enclosing_fors(n)]
+        def is_input(e, fx=fx, p=p):
+            """e (a node of fn) denotes the parameter p, possibly materialised by list()/tuple()"""
+            x = fx.x(e)
+            while isinstance(x, ast.Call) and isinstance(x.func, ast.Name) and x.func.id in ('list', 'tuple', 'iter') and len(x.args) == 1 and not x.keywords:
+                x = x.args[0]
+            return isinstance(x, ast.Name) and x.id == p
+        loops = [n for n in walk_no_nested(fn.node) if isinstance(n, ast.For) and is_input(n.iter) and not fx.enclosing_fors(n)]
+        # `[f(x) for x in <param>]` and `map(f, <param>)` are the same front-to-back pass
+        loops += [n for n in walk_no_nested(fn.node) if isinstance(n, (ast.ListComp, ast.GeneratorExp)) and len(n.generators) == 1
+                  and not n.generators[0].ifs and is_input(n.generators[0].iter) and not fx.enclosing_fors(n)]
+        loops += [n for n in walk_no_nested(fn.node) if isinstance(n, ast.Call) and isinstance(n.func, ast.Name) and n.func.id == 'map'
+                  and len(n.args) == 2 and is_input(n.args[1]) and not fx.enclosing_fors(n)]
         for lp in loops:
             o.site(fn, lp, f"{fn.name} iterates its input `{p}` front to back")
         if not loops:
@@ -1946,8 +2114,18 @@ def ob_order(ctx, o, F):
     # returns: tasks_to_raws returns the list it appended to; read_csv returns raws_to_wbs(<accumulated rows>)
     fx = fx_of(ctx, t2r)
     rets = [n for n in walk_no_nested(t2r.node) if isinstance(n, ast.Return)]
+    rv = fx.x(rets[0].value) if len(rets) == 1 and rets[0].value is not None else None
+    if isinstance(rv, ast.Call) and isinstance(rv.func, ast.Name) and rv.func.id == 'list' and len(rv.args) == 1 and not rv.keywords:
+        rv = rv.args[0]
     if len(rets) == 1 and isinstance(rets[0].value, ast.Name) and rets[0].value.id in fx.acc:
         o.site(t2r, rets[0], "tasks_to_raws returns the accumulated list")
+    elif isinstance(rv, (ast.ListComp, ast.GeneratorExp)) and len(rv.generators) == 1 and not rv.generators[0].ifs \
+            and isinstance(rv.generators[0].iter, ast.Name) and rv.generators[0].iter.id == t2r.params[0]:
+        o.site(t2r, rets[0], "tasks_to_raws returns one element per input task, in input order")
+    elif isinstance(rv, ast.Call) and isinstance(rv.func, ast.Name) and rv.func.id == 'map' and len(rv.args) == 2 \
+            and isinstance(rv.args[1], ast.Name) and rv.args[1].id == t2r.params[0] and isinstance(rets[0].value, ast.Call) \
+            and isinstance(rets[0].value.func, ast.Name) and rets[0].value.func.id == 'list':
+        o.site(t2r, rets[0], "tasks_to_raws returns list(map(f, tasks)): one element per input task, in input order")
     else:
         o.undecided(t2r, t2r.node, 'tasks_to_raws return', "tasks_to_raws does not return its accumulator list directly")
     fx = fx_of(ctx, rd)
@@ -1957,10 +2135,27 @@ def ob_order(ctx, o, F):
         if isinstance(rv, ast.Call) and isinstance(rv.func, ast.Name) and rv.func.id == 'raws_to_wbs' and len(rv.args) == 1 \
                 and isinstance(rv.args[0], ast.Name) and rv.args[0].id in fx.acc:
             o.site(rd, rets[0], "read_csv returns raws_to_wbs(<rows in file order>)")
+        elif isinstance(rv, ast.Call) and isinstance(rv.func, ast.Name) and rv.func.id == 'raws_to_wbs' and len(rv.args) == 1 \
+                and _entry_body(ctx, 'read_csv')[2] is not None and same(rv.args[0], fx.x(_entry_body(ctx, 'read_csv')[2])) \
+                and _returns_accumulator(ctx, _entry_body(ctx, 'read_csv')[0]):
+            o.site(rd, rets[0], f"read_csv returns raws_to_wbs({_entry_body(ctx, 'read_csv')[0].name}(..)), which returns the rows in file order")
         else:
             o.undecided(rd, rets[0], rv, "read_csv does not return raws_to_wbs(<accumulated rows>)")
     else:
         o.undecided(rd, rd.node, 'read_csv return', "read_csv has no single return")
+
+
+def _returns_accumulator(ctx, fn) -> bool:
+    """every return of fn returns the one list that starts empty and is only appended to"""
+    fx = fx_of(ctx, fn)
+    rets = [n for n in walk_no_nested(fn.node) if isinstance(n, ast.Return)]
+    if len(rets) != 1 or not isinstance(rets[0].value, ast.Name) or rets[0].value.id not in fx.acc:
+        return False
+    name = rets[0].value.id
+    if len(fx.flow.defs_of(name)) != 1:
+        return False
+    return all(n.func.attr == 'append' for n in walk_no_nested(fn.node) if isinstance(n, ast.Call) and isinstance(n.func, ast.Attribute)
+               and isinstance(n.func.value, ast.Name) and n.func.value.id == name)
 
 
 def _order_neutral(call, pm, fx):
